@@ -25,7 +25,8 @@ def load_table(path):
         d = json.load(f)
     global CASES
     CASES = {'shapes': {r['mode']: r for r in d.get('shapes', [])}, 'bridges': d.get('bridges', []),
-             'multiline': d.get('multiline', [])}
+             'multiline': d.get('multiline', []), 'mlstrings': d.get('mlstrings', []), 'mlnodes': d.get('mlnodes', []),
+             'mlslots': {r['mode']: r['slots'] for r in d.get('mlslots', [])}}
     return {r['mode']: r['row'] for r in d['table']}, [tuple(x) for x in d['matrix']]
 
 
@@ -268,6 +269,29 @@ def plan(seed, table, matrix, quick, pool):
             p = (1.0 if core else 0.25) if quick else (1.0 if is_named else (0.5 if core else 0.05))
             if rng.random() < p:
                 cases.append({'mode': m, 'text': text, 'cat': name, 'kind': ''})
+
+    # multi-line string dimension (ParseCases.tla MLStrings x MLNodes x MLSlots): complete for the modes whose wrapper
+    # indents the fragment, sampled for the others
+    for m in sorted(CASES['mlslots']):
+        slots = CASES['mlslots'][m]
+        if not slots or m not in table:
+            continue
+        block = m in ('match_case', '_match_cases', 'ExceptHandler', '_ExceptHandlers')
+        if quick and m not in named:
+            continue
+        p = 1.0 if block else (0.2 if quick else (1.0 if m in named else 0.1))
+        for slot in slots:
+            for nd in CASES['mlnodes']:
+                for st in CASES['mlstrings']:
+                    if rng.random() < p:
+                        text = slot.replace('<E>', nd['s'].replace('<S>', st['s']))
+                        cases.append({'mode': m, 'text': text, 'cat': f"mls:{nd['n']}:{st['n']}", 'kind': ''})
+    for slot in CASES['mlslots'].get('match_case', []) + CASES['mlslots'].get('ExceptHandler', []):
+        for nd in CASES['mlnodes']:
+            for st in CASES['mlstrings']:
+                if rng.random() < (0.25 if quick else 1.0):
+                    text = slot.replace('<E>', nd['s'].replace('<S>', st['s']))
+                    cases.append({'mode': 'all', 'text': text, 'cat': f"mls:{nd['n']}:{st['n']}", 'kind': ''})
 
     # wrapper escapes generated from each mode's own embedding delimiters
     for m in named:
